@@ -552,6 +552,11 @@ def check_token(case, ctx):
             try:
                 lt = T.lex(lit_sql, flavor, ps, percent)
             except T.LexError as e:
+                if flavor == "mssql" and percent == "nodouble" and e.kind == "placeholder-in-quotes" and isinstance(v, str) and "%(" in v:
+                    # the value is rendered more than once (e.g. OUTPUT + VALUES) and pymssql's %(name)s scan matches from the "%(" of one
+                    # rendering to a ")s" of the next; the driver offers no escape for "%(" inside a literal: driver limitation, out of scope
+                    ctx.exclude("pymssql: '%(' inside a literal that is rendered more than once (driver has no escape)")
+                    continue
                 raise Violation(known or f"C05/token/{e.kind}/{flavor}", f"{where}: the literal rendering of {v!r} is not lexically valid for this driver+backend: {e}", observed=lit_sql, expected=bound_sql)
             if mode == "lb" and any(t[0] == "ph" for t in lt):
                 sig = known
